@@ -50,3 +50,16 @@ void fx_split_other_count(void *dest, uint32_t len, uint8_t value) {     /* tail
     count = len & 7;
     for (; count; count--) *dp++ = value;
 }
+
+/* erase-length rule: callee unit x length argument = entry element size x one of the entry's counts */
+extern void mem_prim_set32(uint32_t *dest, uint32_t len, uint32_t value);
+int fxlen32_good(uint32_t *dest, size_t dmax, uint32_t value, size_t n) {
+    if (n > dmax) { mem_prim_set32(dest, (uint32_t)dmax, 0); return 406; }
+    if (value == 0) explicit_bzero(dest, n * 4); else mem_prim_set32(dest, (uint32_t)n, value);
+    return 0;
+}
+int fxlen32_half(uint32_t *dest, size_t dmax, uint32_t value, size_t n) {
+    if (n > dmax) { mem_prim_set32(dest, (uint32_t)dmax, 0); return 406; }
+    if (value == 0) explicit_bzero(dest, n * 2); else mem_prim_set32(dest, (uint32_t)n, value);       /* the 16-bit sibling's factor */
+    return 0;
+}
